@@ -284,6 +284,15 @@ pub fn spaces(tier: Tier) -> Vec<Space<'static>> {
         };
         judge(t.as_bytes(), acc);
     }));
+    // every surrogate pair written as two escapes (all 1024 x 1024), block by high surrogate
+    sp.push(Space::new("every surrogate-pair escape (1024 high x 1024 low)", 1024, |hi, acc| {
+        let h = 0xD800 + hi;
+        for lo in 0..1024u64 {
+            let l = 0xDC00 + lo;
+            let t = if (hi + lo) % 2 == 0 { format!("\"\\u{:04x}\\u{:04X}\"", h, l) } else { format!("[\"x\\u{:04X}\\u{:04x}y\"]", h, l) };
+            judge(t.as_bytes(), acc);
+        }
+    }));
     // every Unicode scalar value raw inside a string and as a key
     sp.push(Space::new("all-scalar-values-raw", univ::N_CHARS, |i, acc| {
         let c = univ::nth_char(i);
